@@ -2,6 +2,7 @@ import ParryModel.Field
 import ParryModel.C19.Model
 import ParryModel.C19.Theorems2
 import ParryModel.C19.Theorems3
+import ParryModel.C19.Theorems4
 /-!
 # C19 theorems: `scaled` is exact — the scaled shape contains `s∘p` exactly when the original contains `p`,
 for every non-degenerate scale vector of any sign.
@@ -203,5 +204,106 @@ theorem circlePoint_on_boundary (radius y c s : K) (h : c * c + s * s = 1) :
   constructor
   · linear_combination (radius * radius) * h
   · trivial
+
+/-! ### `Cone::scaled`: the whole dispatch -/
+
+/-- **`Cone::scaled`, whole dispatch, every sign pattern**: whenever the function returns a `Cone` (it does so exactly when
+`scale.x == scale.z` and `scale.y >= 0`), that cone contains `s∘p` iff the original contains `p` — for every scale with
+non-zero components of any sign.  In particular a negative `scale.y` never yields a `Cone`. -/
+theorem cone_scaled_dispatch_mem (c : Cone K) (s p : V3 K) (c' : Cone K)
+    (hx : s.x ≠ 0) (hy : s.y ≠ 0) :
+    letI := fieldNum K sq
+    c.scaled s = some c' → (0 < s.y ∧ s.x = s.z ∧ (c'.Mem (p.cmul s) ↔ c.Mem p)) := by
+  intro h
+  simp only [Cone.scaled] at h
+  split_ifs at h with hc
+  simp only [Bool.or_eq_true, Bool.not_eq_true', decide_eq_true_eq, not_or, Bool.not_eq_false, not_lt] at hc
+  have hxz : s.x = s.z := (neq_iff sq _ _).mp hc.1
+  have hpos : 0 < s.y := lt_of_le_of_ne hc.2 (Ne.symm hy)
+  refine ⟨hpos, hxz, ?_⟩
+  have := cone_scaled_mem sq c s.x s.y p hx hpos
+  simp only [Option.some.injEq] at h
+  subst h
+  simpa only [V3.cmul, ← hxz] using this
+
+example : @Cone.scaled ℚ (fieldNum ℚ id) ⟨1, 1⟩ ⟨-2, 3, -2⟩ = some ⟨3, 2⟩ := by
+  simp [Cone.scaled, Cone.scaledXZ, neq, nabs]
+
+/-- the dispatch returns a cone for every scale with `scale.x = scale.z`, `scale.y > 0` (so the theorem above is not
+vacuous) and never for `scale.y < 0` -/
+theorem cone_scaled_dispatch_iff (c : Cone K) (s : V3 K) :
+    letI := fieldNum K sq
+    (c.scaled s).isSome = true ↔ (s.x = s.z ∧ 0 ≤ s.y) := by
+  simp only [Cone.scaled]
+  split_ifs with hc
+  · simp only [Bool.or_eq_true, Bool.not_eq_true', decide_eq_true_eq] at hc
+    simp only [Option.isSome_none, Bool.false_eq_true, false_iff, not_and, not_le]
+    intro hxz
+    rcases hc with h | h
+    · have := (neq_iff sq s.x s.z).mpr hxz
+      rw [h] at this; exact absurd this (by simp)
+    · exact h
+  · simp only [Bool.or_eq_true, Bool.not_eq_true', decide_eq_true_eq, not_or, Bool.not_eq_false, not_lt] at hc
+    simp only [Option.isSome_some, true_iff]
+    exact ⟨(neq_iff sq _ _).mp hc.1, hc.2⟩
+
+/-! ### the other dispatches -/
+
+/-- **`Cylinder::scaled`, whole dispatch**: whenever a `Cylinder` is returned (exactly when `scale.x == scale.z`), it
+contains `s∘p` iff the original contains `p`, for every sign pattern (a cylinder is symmetric under `y ↦ -y`, so
+`|scale.y|` is right here). -/
+theorem cylinder_scaled_dispatch_mem (c : Cylinder K) (s p : V3 K) (c' : Cylinder K)
+    (hx : s.x ≠ 0) (hy : s.y ≠ 0) (hc : 0 ≤ c.hh ∧ 0 ≤ c.r) :
+    letI := fieldNum K sq
+    c.scaled s = some c' → (s.x = s.z ∧ (c'.Mem (p.cmul s) ↔ c.Mem p)) := by
+  intro h
+  simp only [Cylinder.scaled] at h
+  split_ifs at h with hxz
+  have hxz' : s.x = s.z := (neq_iff sq _ _).mp hxz
+  refine ⟨hxz', ?_⟩
+  have := cylinder_scaled_mem sq c s.x s.y p hx hy hc
+  simp only [Option.some.injEq] at h
+  subst h
+  simpa only [V3.cmul, ← hxz'] using this
+
+/-- **`Capsule::scaled` / `Ball::scaled` (3-D), whole dispatch**: a capsule / ball is returned exactly for
+`scale.x == scale.y == scale.z`, and then contains `s∘p` iff the original contains `p`. -/
+theorem capsule_scaled_dispatch_mem (c : Capsule3 K) (s p : V3 K) (c' : Capsule3 K) (hx : s.x ≠ 0) :
+    letI := fieldNum K sq
+    c.scaled s = some c' → (s.x = s.y ∧ s.x = s.z ∧ (c'.Mem (p.cmul s) ↔ c.Mem p)) := by
+  letI := fieldNum K sq
+  intro h
+  simp only [Capsule3.scaled] at h
+  by_cases hu : uniformScale s = true
+  swap
+  · rw [if_neg hu] at h; exact absurd h (by simp)
+  rw [if_pos hu] at h
+  simp only [uniformScale, Bool.and_eq_true] at hu
+  have hxy : s.x = s.y := (neq_iff sq _ _).mp hu.1.1
+  have hxz : s.x = s.z := (neq_iff sq _ _).mp hu.1.2
+  refine ⟨hxy, hxz, ?_⟩
+  simp only [Option.some.injEq] at h
+  subst h
+  have := capsule_scaled_mem sq c s.x p hx
+  simpa only [V3.cmul, V3.smul, ← hxy, ← hxz] using this
+
+theorem ball_scaled_dispatch_mem (b : Ball K) (s p : V3 K) (b' : Ball K) (hx : s.x ≠ 0) :
+    letI := fieldNum K sq
+    b.scaled s = some b' → (s.x = s.y ∧ s.x = s.z ∧ (b'.Mem3 (p.cmul s) ↔ b.Mem3 p)) := by
+  letI := fieldNum K sq
+  intro h
+  simp only [Ball.scaled] at h
+  by_cases hu : uniformScale s = true
+  swap
+  · rw [if_neg hu] at h; exact absurd h (by simp)
+  rw [if_pos hu] at h
+  simp only [uniformScale, Bool.and_eq_true] at hu
+  have hxy : s.x = s.y := (neq_iff sq _ _).mp hu.1.1
+  have hxz : s.x = s.z := (neq_iff sq _ _).mp hu.1.2
+  refine ⟨hxy, hxz, ?_⟩
+  simp only [Option.some.injEq] at h
+  subst h
+  have := ball_scaled_mem sq b s.x p hx
+  simpa only [V3.cmul, V3.smul, ← hxy, ← hxz] using this
 
 end C19
